@@ -562,13 +562,13 @@ register("C12",
          "a field pointer aliases the parent's field; non-trivial = request with >= 2 fields / accepted program with struct or field provider",
          [stream_part("C12", lambda tier: [("fields", "fields", ["-seed", seed(), "-n", 15000 if tier == "quick" else 200000])],
                       nontrivial=lambda case, im: len(case.get("raw", [])) >= 9),
-          e2e_part("C12", [("s", {"p_func": 0.25, "units": [1, 2]}),
-                           # many fields selected through pointers, value and pointer form of one field wanted by one consumer
-                           ("f", {"p_func": 0.45, "p_field": 0.5, "p_both_forms": 1.0, "units": [1, 2], "min_structs": 5, "max_structs": 9}),
+          e2e_part("C12", [# many fields selected through pointers, value and pointer form of one field wanted by one consumer
+                           ("f", {"p_func": 0.45, "p_field": 0.6, "p_both_forms": 1.0, "units": [2, 3], "min_structs": 5, "max_structs": 9}),
+                           ("s", {"p_func": 0.25, "units": [1, 2]}),
                            # S and *S of one struct provider wanted by one provider function
                            ("b", {"p_func": 0.3, "p_both_struct_forms": 1.0, "units": [1, 2]})],
                    _pairs_c02, {"C12"}, _has(("struct", "field")),
-                   n_quick=90, n_thorough=900)])
+                   n_quick=180, n_thorough=1500)])
 
 
 def _c13_part(rep, tier):
